@@ -2903,3 +2903,47 @@ def spec_mangen_control_args(fns, consts):
 
 spec_mangen_control_args.crate = "clap_mangen"
 SPECS["C19"].append(spec_mangen_control_args)
+
+
+# ------------------------------------------------------------------ C04: `value_parser(<range>)` keeps the range's own bounds
+
+def spec_range_sugar(fns, consts):
+    """`impl From<Range*<i64>> for ValueParser` (the `value_parser(lo..hi)` sugar): each of the six impls
+    hands RangedI64ValueParser::range a range of the SAME kind as its input (so an inclusive end stays
+    inclusive, an exclusive one exclusive) whose bounds are the input's own fields, and wraps that parser."""
+    con = contracts.Contracts(fns, default_pure=True)
+    ctx = symex.Ctx(consts, con)
+    obs, enc = [], []
+    impls = [(n, f) for n, f in fns.items() if re.match(r"^value_parser::<impl at clap_builder/src/builder/value_parser\.rs:[\d: ]+>::from$", n)]
+    kinds = {}
+    for n, f in impls:
+        fn = f.get()
+        if len(fn.params) != 1 or "ValueParser" not in fn.ret or "Ranged" in fn.ret:
+            continue
+        m = re.match(r"^(?:std::ops::)?(Range\w*)(?:<i64>)?$", fn.params[0][1].strip())
+        if not m:
+            continue
+        kind = m.group(1)
+        kinds[kind] = fn
+        ex = symex.Exec(ctx, fn, [("opq", "value")]).run()
+        ok = False
+        for (pc, val), ca in zip(ex.returns, ex.return_callargs):
+            rc = [c for c in ca if re.match(r"^RangedI64ValueParser::range::<", c[0])]
+            if len(rc) != 1:
+                continue
+            got = re.match(r"^RangedI64ValueParser::range::<(?:std::ops::)?(Range\w*)", rc[0][0]).group(1)
+            arg = rc[0][1][1]
+            fields = set(re.findall(r"value(?:\.(\d))?", arg))
+            # (a struct aggregate's key does not carry its fields: read them from the MIR text - every bound is fed from the input)
+            uses_input = ("value" in arg or arg.startswith("aggr:")) and not re.search(r"(start|end): const", fn.text) and "const" not in arg
+            ok = got == kind and (kind == "RangeFull" or uses_input) and any(c[0].endswith("as From<RangedI64ValueParser>>::from") and rc[0][2] in c[1][0] for c in ca)
+        obs.append({"fn": fn.name, "block": "ret", "kind": "spec", "target": "range_sugar",
+                    "msg": f"value_parser({kind}<i64>) builds the parser from a {kind} with the input's own bounds", "pc": [], "neg": "false" if ok else "true"})
+        enc.append(_enc(fn, ex, len(ex.returns)))
+    missing = {"Range", "RangeInclusive", "RangeFrom", "RangeTo", "RangeToInclusive", "RangeFull"} - set(kinds)
+    if missing:
+        obs.append({"fn": "value_parser.rs", "block": "shape", "kind": "spec", "target": "range_sugar", "msg": "From<range> impls not found: " + ", ".join(sorted(missing)), "pc": [], "neg": "true"})
+    return ctx, obs, enc, con
+
+
+SPECS["C04"].append(spec_range_sugar)
